@@ -1,11 +1,271 @@
 import DaeVerif.C07.Proofs
+/-!
+# C07 — property theorems
+
+Only statements a reader should audit live here (namespace `DaeVerif.C07.Props`); helper lemmas are
+in `Proofs.lean`, definitions in `Model.lean`.  Every theorem quantifies over ALL rule lists,
+questions, answers and upstream behaviours; non-vacuity `example`s follow the theorems.
+
+Reading aid — the specification side is three small definitions of `Model.lean`:
+`Func.holds` (a call holds iff "some parameter matches" differs from its `!`),
+`SrcRule.holds` (all calls hold) and `firstMatchSrc` (outbound of the first rule that holds, else
+the fallback).  The implementation side is `scanGo` (the `Match` loop, statement by statement) over
+`compile` (what the builders write: match sets, domain-set table indexed by match-set position,
+ip-set table indexed by `Value`).
+-/
 namespace DaeVerif.C07.Props
 open DaeVerif.C07 DaeVerif.RuleScan
 
-/-- placeholder while the pipeline is brought up -/
-theorem reject_beats_cache0 (cfg : Cfg) (cache : Cache) (dst : Nat) (q : Question) (ans : Upstreams)
+/-- What `dns.New` and the builders guarantee of outbound bytes: user upstream ids stay below
+`0xFC` (`too many upstreams` otherwise), `reject/asis/accept` are `0xFC/0xFD`; `0xFE/0xFF` are
+never a rule's outbound (`upstream "…" not found`). -/
+def OutsOK (rs : List SrcRule) (fb : Nat) : Prop := (∀ r ∈ rs, r.out < 0xFE) ∧ fb < 0xFE
+
+/-! ## Clause 1 — questions are routed by the first matching request rule -/
+
+/-- **Request routing is first-match.** For every request rule list and fallback the builder
+accepts, every name (any case, dots, empty), every qtype: `RequestMatcher.Match` over the compiled
+match sets returns the outbound of the first DNS rule (internal `sub/node/subnode` rules skipped)
+all of whose conditions hold, else the fallback. -/
+theorem request_match_is_first_match (rs : List SrcRule) (fb : Nat) (P : Prog) (env : Env)
+    (hc : compileRequest rs fb = some P) (hw : OutsOK rs fb) :
+    requestMatch P env = .hit (firstMatchSrc env (splitRequestRules rs) fb) := by
+  unfold compileRequest at hc
+  split at hc
+  · have hout : ∀ r ∈ splitRequestRules rs, r.out < 0xFE := fun r hr =>
+      hw.1 r (List.mem_filter.mp hr).1
+    simp [requestMatch, scanGo_compile env _ fb P hc hout hw.2]
+  · cases hc
+
+/-- "first matching rule" spelled out (no recursion to read): either the list splits as
+`pre ++ r :: post` with no rule of `pre` holding, `r` holding and the result being `r`'s outbound,
+or no rule holds and the result is the fallback. -/
+theorem first_match_is_first (env : Env) (rs : List SrcRule) (fb : Nat) :
+    (∃ pre r post, rs = pre ++ r :: post ∧ (∀ x ∈ pre, x.holds env = false) ∧ r.holds env = true ∧
+        firstMatchSrc env rs fb = r.out) ∨
+    ((∀ x ∈ rs, x.holds env = false) ∧ firstMatchSrc env rs fb = fb) :=
+  firstMatchSrc_char env fb rs
+
+/-- Names are matched case-insensitively and up to ONE trailing dot: two non-empty names with the
+same `ToLower(TrimSuffix(·, "."))` are routed alike by every rule list (same regex oracle). -/
+theorem name_case_and_trailing_dot (rs : List SrcRule) (fb : Nat) (env : Env) (n' : List Char)
+    (h1 : env.name ≠ []) (h2 : n' ≠ []) (hn : normName env.name = normName n') :
+    firstMatchSrc { env with name := n' } rs fb = firstMatchSrc env rs fb := by
+  have hf : ∀ f : Func, f.holds { env with name := n' } = f.holds env := by
+    intro f
+    cases f <;> simp [Func.holds, Func.anyParam, hn, h1, h2]
+  have hr : ∀ r : SrcRule, r.holds { env with name := n' } = r.holds env := by
+    intro r; simp [SrcRule.holds, hf]
+  induction rs with
+  | nil => rfl
+  | cons r rs ih => simp [firstMatchSrc, hr, ih]
+
+/-- `RequestSelect`: the decoded decision. `reject`/`asis` are the bytes `0xFC`/`0xFD`; any other
+byte is an upstream index, which the builder took from the defined upstreams (`< nUp`). -/
+def decodeReq (o : Nat) : ReqSel :=
+  if o == 0xFC then .reject else if o == 0xFD then .to .asis else .to (.up o)
+
+theorem firstMatchSrc_mem (env : Env) (rs : List SrcRule) (fb : Nat) :
+    firstMatchSrc env rs fb = fb ∨ ∃ r ∈ rs, firstMatchSrc env rs fb = r.out := by
+  rcases firstMatchSrc_char env fb rs with ⟨pre, r, post, rfl, _, _, h⟩ | ⟨_, h⟩
+  · exact Or.inr ⟨r, by simp, h⟩
+  · exact Or.inl h
+
+theorem request_select_is_first_match (cfg : Cfg) (rs : List SrcRule) (fb : Nat) (q : Question)
+    (hc : compileRequest rs fb = some cfg.req)
+    (hup : ∀ o, (o = fb ∨ ∃ r ∈ rs, o = r.out) → o < cfg.nUp ∨ o = 0xFC ∨ o = 0xFD)
+    (hn : cfg.nUp ≤ 0xFC) :
+    requestSelect cfg q = decodeReq (firstMatchSrc (reqEnv q) (splitRequestRules rs) fb) := by
+  have hw : OutsOK rs fb := by
+    constructor
+    · intro r hr; rcases hup r.out (Or.inr ⟨r, hr, rfl⟩) with h | h | h <;> omega
+    · rcases hup fb (Or.inl rfl) with h | h | h <;> omega
+  unfold requestSelect
+  rw [request_match_is_first_match rs fb cfg.req (reqEnv q) hc hw]
+  have hm := firstMatchSrc_mem (reqEnv q) (splitRequestRules rs) fb
+  have : firstMatchSrc (reqEnv q) (splitRequestRules rs) fb < cfg.nUp ∨ _ = 0xFC ∨ _ = 0xFD := by
+    apply hup
+    rcases hm with h | ⟨r, hr, h⟩
+    · exact Or.inl h
+    · exact Or.inr ⟨r, (List.mem_filter.mp hr).1, h⟩
+  simp only [decodeReq]
+  split
+  · rfl
+  · split
+    · rfl
+    · rename_i h1 h2
+      have h1' : ¬ firstMatchSrc (reqEnv q) (splitRequestRules rs) fb = 0xFC := by simpa using h1
+      have h2' : ¬ firstMatchSrc (reqEnv q) (splitRequestRules rs) fb = 0xFD := by simpa using h2
+      have : ¬ firstMatchSrc (reqEnv q) (splitRequestRules rs) fb ≥ cfg.nUp := by omega
+      simp [this]
+
+/-! ## Clause 3 — answers are routed by the first matching response rule -/
+
+/-- **Response routing is first-match** over name, type, answering upstream and answer addresses. -/
+theorem response_match_is_first_match (rs : List SrcRule) (fb : Nat) (P : Prog) (env : Env)
+    (hc : compile rs fb = some P) (hw : OutsOK rs fb) (hn : env.name ≠ []) :
+    responseMatch P env = .hit (firstMatchSrc env rs fb) := by
+  have : (env.name == []) = false := by simpa using hn
+  simp [responseMatch, this, scanGo_compile env rs fb P hc hw.1 hw.2]
+
+/-- An answer without a usable question name is not routed at all (the matcher returns an error). -/
+theorem response_match_empty_name (P : Prog) (env : Env) (hn : env.name = []) :
+    responseMatch P env = .emptyName := by
+  simp [responseMatch, hn]
+
+def decodeResp (o : Nat) : RespSel :=
+  if o == 0xFC then .accept else if o == 0xFD then .reject else .next o
+
+theorem response_select_is_first_match (cfg : Cfg) (rs : List SrcRule) (fb : Nat) (r : Resp) (u : UpRef)
+    (q : Question) (hq : r.q = some q) (hname : q.name ≠ []) (hresp : r.isResponse = true)
+    (hc : compile rs fb = some cfg.resp)
+    (hup : ∀ o, (o = fb ∨ ∃ x ∈ rs, o = x.out) → o < cfg.nUp ∨ o = 0xFC ∨ o = 0xFD)
+    (hn : cfg.nUp ≤ 0xFC) :
+    responseSelect cfg r u = decodeResp (firstMatchSrc (respEnv r u) rs fb) := by
+  have hw : OutsOK rs fb := by
+    constructor
+    · intro x hx; rcases hup x.out (Or.inr ⟨x, hx, rfl⟩) with h | h | h <;> omega
+    · rcases hup fb (Or.inl rfl) with h | h | h <;> omega
+  have henv : (respEnv r u).name ≠ [] := by simp [respEnv, hq, hname]
+  unfold responseSelect
+  rw [response_match_is_first_match rs fb cfg.resp (respEnv r u) hc hw henv]
+  have : firstMatchSrc (respEnv r u) rs fb < cfg.nUp ∨ _ = 0xFC ∨ _ = 0xFD :=
+    hup _ (firstMatchSrc_mem (respEnv r u) rs fb)
+  simp only [hresp, decodeResp]
+  split
+  · simp
+  · split
+    · simp
+    · rename_i h1 h2
+      have h1' : ¬ firstMatchSrc (respEnv r u) rs fb = 0xFC := by simpa using h1
+      have h2' : ¬ firstMatchSrc (respEnv r u) rs fb = 0xFD := by simpa using h2
+      have : ¬ firstMatchSrc (respEnv r u) rs fb ≥ cfg.nUp := by omega
+      simp [this]
+
+/-- The addresses a response rule sees are exactly the A / AAAA records of the answer section
+(IPv4 in mapped form); other records contribute nothing. -/
+theorem response_addresses (r : Resp) (u : UpRef) (q : Question) (hq : r.q = some q) :
+    (respEnv r u).ips = r.recs.filterMap Rec.ip? ∧ (respEnv r u).«from» = u.index := by
+  simp [respEnv, hq]
+
+/-! ## Clause 2 — reject beats the cache -/
+
+/-- **Reject beats cache.** Whatever the cache holds, a question routed to `reject` gets the empty
+answer, no upstream is asked, every cached answer of that (name, type) — under every scope — is
+gone afterwards, and nothing else in the cache changes. -/
+theorem reject_beats_cache (cfg : Cfg) (cache : Cache) (dst : Nat) (q : Question) (ans : Upstreams)
     (h : requestSelect cfg q = .reject) :
-    (handle cfg cache dst false (some q) ans).reply = .rejected := by
-  simp [handle, h]
+    let o := handle cfg cache dst false (some q) ans
+    o.reply = .rejected ∧ o.trace = [] ∧
+    (∀ sc, o.cache.lookup ⟨canonName q.name, q.qtype, sc⟩ = none) ∧
+    (∀ k : CacheKey, ¬(k.name = canonName q.name ∧ k.qtype = q.qtype) → o.cache.lookup k = cache.lookup k) := by
+  simp only [handle, Option.getD_some, h, Bool.false_eq_true, if_false]
+  exact ⟨rfl, rfl, fun sc => lookup_removeFamily_same cache _ _ sc,
+    fun k hk => lookup_removeFamily_other cache _ _ k hk⟩
+
+/-- A cached answer is served only for questions that are not rejected, without asking anybody. -/
+theorem cache_hit_asks_nobody (cfg : Cfg) (cache : Cache) (dst : Nat) (q : Question) (ans : Upstreams)
+    (u : UpRef) (recs : List Rec) (h : requestSelect cfg q = .to u)
+    (hhit : cache.lookup ⟨canonName q.name, q.qtype, scopeOf dst u⟩ = some recs) :
+    let o := handle cfg cache dst false (some q) ans
+    o.reply = .answers recs true ∧ o.trace = [] ∧ o.cache = cache := by
+  simp [handle, h, hhit]
+
+/-! ## Clauses 1+3 in the controller — who is asked, and what happens to the answer -/
+
+/-- On a cache miss the first upstream asked is the one the request rules selected, and the
+upstream queries are exactly those of `dialSend` started there. -/
+theorem question_goes_to_selected_upstream (cfg : Cfg) (cache : Cache) (dst : Nat) (q : Question)
+    (ans : Upstreams) (u : UpRef) (h : requestSelect cfg q = .to u)
+    (hmiss : cache.lookup ⟨canonName q.name, q.qtype, scopeOf dst u⟩ = none) :
+    (handle cfg cache dst false (some q) ans).trace = (dialSend cfg ans 0 u).1 ∧
+    (dialSend cfg ans 0 u).1.head? = some u := by
+  constructor
+  · simp only [handle, Option.getD_some, h, hmiss, Bool.false_eq_true, if_false]
+    cases hd : dialSend cfg ans 0 u with
+    | mk t r => cases r <;> rfl
+  · rw [dialSend_step cfg ans 0 u (by decide)]
+    cases ans 0 u with
+    | none => rfl
+    | some r => cases responseSelect cfg r u <;> rfl
+
+/-- **What happens to an upstream answer** (one step of `dialSend` below the depth limit):
+no answer → error; accept → the answer as is; reject → the same message with the answer section
+emptied; another upstream → that upstream is asked next, one level deeper. -/
+theorem response_action (cfg : Cfg) (ans : Upstreams) (d : Nat) (u : UpRef) (h : d < maxDnsLookupDepth) :
+    (ans d u = none → dialSend cfg ans d u = ([u], .error .forwardFail)) ∧
+    (∀ r, ans d u = some r → responseSelect cfg r u = .accept → dialSend cfg ans d u = ([u], .ok r)) ∧
+    (∀ r, ans d u = some r → responseSelect cfg r u = .reject →
+        dialSend cfg ans d u = ([u], .ok { r with recs := [] })) ∧
+    (∀ r k, ans d u = some r → responseSelect cfg r u = .next k →
+        dialSend cfg ans d u = (u :: (dialSend cfg ans (d + 1) (.up k)).1, (dialSend cfg ans (d + 1) (.up k)).2)) ∧
+    (∀ r e, ans d u = some r → responseSelect cfg r u = .err e → dialSend cfg ans d u = ([u], .error e)) := by
+  refine ⟨?_, ?_, ?_, ?_, ?_⟩
+  · intro h0; rw [dialSend_step cfg ans d u h, h0]
+  · intro r h0 h1; rw [dialSend_step cfg ans d u h, h0]; simp only [h1]
+  · intro r h0 h1; rw [dialSend_step cfg ans d u h, h0]; simp only [h1]
+  · intro r k h0 h1; rw [dialSend_step cfg ans d u h, h0]; simp only [h1]
+  · intro r e h0 h1; rw [dialSend_step cfg ans d u h, h0]; simp only [h1]
+
+/-- The final message is what the client gets, and a healthy one is stored under the cache key of
+the ORIGINAL request route (also when another upstream finally answered, also when emptied). -/
+theorem final_answer_is_relayed_and_cached (cfg : Cfg) (cache : Cache) (dst : Nat) (q : Question)
+    (ans : Upstreams) (u : UpRef) (t : List UpRef) (r : Resp) (h : requestSelect cfg q = .to u)
+    (hmiss : cache.lookup ⟨canonName q.name, q.qtype, scopeOf dst u⟩ = none)
+    (hd : dialSend cfg ans 0 u = (t, .ok r)) :
+    let o := handle cfg cache dst false (some q) ans
+    o.reply = .answers r.recs r.rcodeOk ∧
+    (r.cacheable = true → o.cache.lookup ⟨canonName q.name, q.qtype, scopeOf dst u⟩ = some r.recs) ∧
+    (r.cacheable = false → o.cache = cache) := by
+  simp only [handle, Option.getD_some, h, hmiss, hd, Bool.false_eq_true, if_false]
+  refine ⟨rfl, ?_, ?_⟩
+  · intro hc; simp only [hc, if_true]; exact lookup_store_same _ _ _
+  · intro hc; simp [hc]
+
+/-! ## Clause 4 — the number of re-asks is bounded -/
+
+/-- **Bounded re-asks.** For every configuration (in particular every response rule list, also
+ones that bounce answers between upstreams forever), every cache, every client message and every
+upstream behaviour, at most `MaxDnsLookupDepth = 3` upstream queries are sent.  (That `handle`
+is a total function — accepted by Lean's termination checker — is the "cannot loop forever".) -/
+theorem reask_bounded (cfg : Cfg) (cache : Cache) (dst : Nat) (isResp : Bool) (q? : Option Question)
+    (ans : Upstreams) :
+    (handle cfg cache dst isResp q? ans).trace.length ≤ maxDnsLookupDepth := by
+  have hb : ∀ u, (dialSend cfg ans 0 u).1.length ≤ maxDnsLookupDepth :=
+    fun u => dialSend_trace_le cfg ans maxDnsLookupDepth 0 u rfl
+  unfold handle
+  split
+  · simp
+  · split
+    · simp
+    · simp
+    · split
+      · simp
+      · rename_i u _ _
+        have := hb u
+        split <;> (rename_i hd; rw [hd] at this; simpa using this)
+
+/-- A rule set that sends every answer on to another upstream ends with the documented error
+after exactly `MaxDnsLookupDepth` queries, whatever the upstreams answer. -/
+theorem bouncing_ends_with_error (cfg : Cfg) (ans : Upstreams) (u : UpRef)
+    (hall : ∀ d v, ∃ r k, ans d v = some r ∧ responseSelect cfg r v = .next k) :
+    (dialSend cfg ans 0 u).2 = .error .tooDeep ∧ (dialSend cfg ans 0 u).1.length = maxDnsLookupDepth := by
+  have step : ∀ d v, d < maxDnsLookupDepth → ∃ k,
+      dialSend cfg ans d v = (v :: (dialSend cfg ans (d + 1) (.up k)).1, (dialSend cfg ans (d + 1) (.up k)).2) := by
+    intro d v hd
+    obtain ⟨r, k, h0, h1⟩ := hall d v
+    exact ⟨k, (response_action cfg ans d v hd).2.2.2.1 r k h0 h1⟩
+  obtain ⟨k0, e0⟩ := step 0 u (by decide)
+  obtain ⟨k1, e1⟩ := step 1 (.up k0) (by decide)
+  obtain ⟨k2, e2⟩ := step 2 (.up k1) (by decide)
+  have e3 := dialSend_deep cfg ans 3 (.up k2) (by decide)
+  rw [e0, e1, e2, e3]
+  exact ⟨rfl, rfl⟩
+
+/-- A message with the response bit is never routed, forwarded or cached. -/
+theorem response_bit_refused (cfg : Cfg) (cache : Cache) (dst : Nat) (q? : Option Question) (ans : Upstreams) :
+    let o := handle cfg cache dst true q? ans
+    o.reply = .error .notRequest ∧ o.trace = [] ∧ o.cache = cache := by
+  simp [handle]
 
 end DaeVerif.C07.Props
